@@ -373,6 +373,17 @@ def getitem(arr, key):
             kk = SymArray((k.n,), (lambda kk_: (lambda idx: kk_.elem(as_num(idx[0], kk_.n))))(k), "index")
             plan.append(("gather", len(newshape), kk))
             newshape.append(k.n)
+        elif hasattr(k, "dtype") and hasattr(k, "tolist") and getattr(k, "ndim", 0) == 1:
+            # a concrete integer index array (concrete-dimension instances): gather through it
+            vals = [int(v) for v in k.tolist()]
+            kk = SymArray((len(vals),), (lambda vs, size: (lambda idx: Num([(sp.Integer(vs[int(idx[0].value()) if isinstance(idx[0], Num) else int(idx[0])]), sp.sympify(size))])))(vals, arr.shape[a]), "index")
+            plan.append(("gather", len(newshape), kk))
+            newshape.append(len(vals))
+        elif isinstance(k, list) and k and all(isinstance(v, (int,)) or hasattr(v, "__index__") for v in k):
+            vals = [int(v) for v in k]
+            kk = SymArray((len(vals),), (lambda vs, size: (lambda idx: Num([(sp.Integer(vs[int(idx[0].value()) if isinstance(idx[0], Num) else int(idx[0])]), sp.sympify(size))])))(vals, arr.shape[a]), "index")
+            plan.append(("gather", len(newshape), kk))
+            newshape.append(len(vals))
         elif isinstance(k, StridedList):
             plan.append(("strided", len(newshape), k))
             newshape.append(k.count)
